@@ -74,8 +74,8 @@ def gen_ro_case(rng: random.Random, tier: str, backends=('dict',)) -> dict:
     for _ in range(rng.randint(3, 20)):
         kind = rng.choices(['store', 'expunge', 'uidexpunge', 'fetch',
                             'search', 'copy', 'move', 'append_ro', 'noop',
-                            'check', 'w_into_ro'],
-                           [6, 3, 2, 6, 2, 2, 3, 2, 1, 1, 2])[0]
+                            'check', 'w_into_ro', 'append_self'],
+                           [6, 3, 2, 6, 2, 2, 3, 2, 1, 1, 2, 2])[0]
         uid = rng.random() < 0.4
         the_set = uid_set(rng, 101, hi) if uid else seq_set(rng, 6)
         act = None
@@ -109,6 +109,20 @@ def gen_ro_case(rng: random.Random, tier: str, backends=('dict',)) -> dict:
                    'into_ro': True}
         elif kind in ('noop', 'check'):
             act = {'kind': kind}
+        elif kind == 'append_self' and target == 'INBOX' and n_obs == 0:
+            # a delivery made from inside the read-only selection into the
+            # examined mailbox; the variant without the read-only program
+            # makes the same delivery from a session with nothing selected:
+            # what the next read-write session sees must not differ
+            tok = tokens.take()
+            app = {'kind': 'append', 'mailbox': 'INBOX',
+                   'literal': rng.choice(['lit', 'litplus']),
+                   'msgs': [{'data': make_message(tok), 'token': tok}]}
+            prog.append({'actions': [dict(app, sess=R, ro=True)],
+                         'sched_seed': None, 'ro': True,
+                         'alt': {'actions': [dict(app, sess=W)],
+                                 'sched_seed': None}})
+            continue
         elif kind == 'w_into_ro' and target == 'Trash':
             # another session (INBOX selected rw) copies/moves into Trash
             prog.append({'actions': [{'sess': W, 'kind': 'select',
@@ -153,6 +167,8 @@ def _run_variant(case: dict, with_ro: bool, trace: bool):
     try:
         for i, step in enumerate(case['steps']):
             if step.get('ro') and not with_ro:
+                if step.get('alt'):
+                    ctx.run_step(step['alt'], i)
                 continue
             cmds = ctx.run_step(step, i)
             if step.get('obs_synced'):
@@ -248,7 +264,9 @@ class C12(Profile):
             'read-only demo mailbox Trash) and runs 3-20 random message '
             'commands (STORE/EXPUNGE/UID EXPUNGE/FETCH with \\Seen-setting '
             'attributes/SEARCH/COPY/MOVE/APPEND into the read-only mailbox, '
-            'plus another session copying/moving into it), CLOSE; then a '
+            'plus another session copying/moving into it; without observers '
+            'also APPEND into the examined mailbox itself, which run B '
+            'performs from a session with nothing selected), CLOSE; then a '
             'read-write session SELECTs and FETCHes 1:* (UID FLAGS). Run B = '
             'the same case without R. Oracle: the final SELECT counts '
             '(EXISTS/RECENT/UNSEEN/UIDNEXT) and per-message flags incl. '
